@@ -42,6 +42,10 @@ CHECKS = {
    text="Two layers. (L2) TLC model-checks the StagedAssign design model - a transcription of the library's staged assignment of expressions with evaluation-requiring nodes - against the L1 value over all 31k (operator, tree of depth<=2, destination kind) combinations: staging refines L1 whenever the destination is not on the right-hand side, for `Tensor = expr` and for `*=`; the full claim is violated and TLC produces the counterexamples (findings D9, D9m). (L1) TLC enumerates trees mixing element-wise + - * with %, trans, inv, adj, cof, det, trace, with and without the destination as element-wise operand, four operators, Tensor and TensorMap destinations, n in {2,3}, float/double, plus lazy product chains of length 2..5 over extents {1,2,3,5}; the recorded lazy and eager results are both validated by TLC against LazyExpr!Expected / Matmul!Product. A lazy result that equals the StagedAssign model but not L1 is recognised as the named deviation (known finding); any other wrong result is a violation.",
    note="Exact integer data (unimodular operands for inv; n<=3). /=, norm and lu-based solve are not in this plan (C16/C12 cover norm and solve). Forms that do not compile in any configuration (TensorMap destination with %, inv, adj, cof; += of a sum whose right operand is inv/adj/cof or scalar*tensor) are excluded as not offered.",
    technique="TLA+ L1 spec + L2 design model checked by TLC + TLC-enumerated plan + TLC trace validation"),
+ "C07": dict(level="exploration", design="3/C07",
+   text="The footprint contract is stated in Memory.tla over an abstract memory (no fault, canaries intact, no heap call, value still correct, checked index raises) and judged by TLC on every recorded call; the observation channel is native: operands and results of TLC-enumerated cases are placed flush against PROT_NONE pages (end side and start side), wrapped external buffers additionally at every byte misalignment 0..63 inside canary-filled pages, a SIGSEGV/SIGBUS handler and an interposed malloc family turn faults and allocations into recorded observations. Exercised: TensorMap copy / axpy / in-place scale / sum / inner / norm^2 / min / max / strided view read and write for sizes 1..20,31..35; matmul, matrix-vector and transpose kernels on owning tensors placed as whole objects; out-of-range scalar indices under FASTOR_ENABLE_RUNTIME_CHECKS=1.",
+   note="Exploration, not model checking of memory safety: an over-read that stays inside mapped non-guard memory is invisible (DESIGN section 0). Kernel families beyond matmul/matvec/transpose are not placed against guard pages. The sanitizer build of the design is not built.",
+   technique="TLA+ contract judged by TLC on traces recorded under guard pages, canaries and an allocation counter"),
 }
 NA_REASON = "check not built yet (work in progress in this session; see DESIGN.md section 3 for the planned model)"
 
